@@ -36,7 +36,8 @@ def check(case, ctx):
     fails = []
     A0 = A.copy()
     sym = bool(np.all(A == A.T))
-    out = ctx.call(bct.get_components, A)
+    tkw = {"timeout": case["timeout"]} if case.get("timeout") else {}
+    out = ctx.call(bct.get_components, A, **tkw)
     if not sym:
         ctx.label("asymmetric")
         ctx.mark_nontrivial(case)
@@ -86,7 +87,7 @@ def check(case, ctx):
         want = [int(np.sum(comps == l)) for l in labs]
         if sizes.shape != (len(labs),) or sizes.tolist() != want:
             fails.append(Failure("get_components:sizes-wrong", "sizes %s, counts per label %s" % (sizes.tolist(), want), case))
-    o2 = ctx.call(bct.number_of_components, A)
+    o2 = ctx.call(bct.number_of_components, A, **tkw)
     if o2.ok:
         if o2.value != m:
             fails.append(Failure("number_of_components:wrong", "returned %r, BFS says %d" % (o2.value, m), case))
@@ -99,7 +100,9 @@ def check(case, ctx):
     off = ~np.eye(n, dtype=bool)
     same = _comembership(comps)
     for name in ("distance_bin", "breadthdist", "reachdist"):
-        o = ctx.call(getattr(bct, name), A.copy())
+        if name == "breadthdist" and n > 400:
+            continue        # one interpreted breadth-first search per node: minutes at this size
+        o = ctx.call(getattr(bct, name), A.copy(), **tkw)
         if o.status == "timeout":
             continue
         if not o.ok:
@@ -166,7 +169,22 @@ def late_merge(draw, nmax):
 
 @st.composite
 def cases(draw, nmax):
-    fam = draw(st.sampled_from(["late_merge", "er", "forest", "isolated", "asym-weights", "clique+chain", "structured", "asym", "copies_er", "late_merge"]))
+    fam = draw(st.sampled_from(["late_merge", "er", "forest", "isolated", "asym-weights", "clique+chain", "structured", "asym", "copies_er", "late_merge", "inf-weights"]))
+    if fam == "inf-weights":
+        # some connections carry an infinite weight (e.g. 1/0 similarities): still connections, for every routine alike
+        n = draw(st.integers(3, min(nmax, 10)))
+        A = draw(gen.tree_adj(n)) if draw(st.booleans()) else draw(gen.er_adj(n, False, "sparse"))
+        W = draw(gen.weights_for(A, "dyadic", False))
+        pr = [(i, j) for (i, j) in gen.pairs(n, False) if A[i, j]]
+        pick = draw(st.lists(st.integers(0, 3), min_size=len(pr), max_size=len(pr)))
+        for (i, j), b in zip(pr, pick):
+            if b == 0:
+                W[i, j] = W[j, i] = np.inf
+            elif b == 1:
+                W[i, j] = W[j, i] = -np.inf
+        if draw(st.booleans()):
+            W = gen.apply_perm(W, draw(gen.perm(n)))
+        return {"A": W, "family": fam, "order": draw(st.sampled_from(gen.ORDERS)), "cut": None}
     if fam == "er":
         n = draw(st.integers(2, nmax))
         A = draw(gen.er_adj(n, False, draw(st.sampled_from(["sparse", "sparse", "medium"]))))
@@ -240,6 +258,33 @@ def cases(draw, nmax):
     return case
 
 
+@st.composite
+def huge_cases(draw):
+    """connected two-colourable networks of a few hundred nodes (walks of one fixed length never cover all pairs), and two hubs sharing
+    exactly 256 / 512 neighbours (walk counts at the wrap-around of 8-bit counters)"""
+    fam = draw(st.sampled_from(["star", "two-hubs", "even-ring", "double-star", "two-hubs"]))
+    if fam == "star":
+        A = gen.star_adj(draw(st.integers(300, 420)))
+    elif fam == "even-ring":
+        A = gen.ring_adj(2 * draw(st.integers(100, 130)))
+    elif fam == "double-star":
+        a = draw(st.integers(150, 200))
+        A = gen.block_diag(gen.star_adj(a), gen.star_adj(draw(st.integers(150, 200))))
+        if draw(st.booleans()):
+            A[0, a] = A[a, 0] = True
+    else:
+        m = draw(st.sampled_from([256, 512, 255, 257]))
+        n = 2 + m + draw(st.integers(0, 3))
+        A = np.zeros((n, n), dtype=bool)
+        A[0, 2:2 + m] = A[2:2 + m, 0] = True
+        A[1, 2:2 + m] = A[2:2 + m, 1] = True
+    n = len(A)
+    if draw(st.booleans()):
+        A = gen.apply_perm(A, draw(gen.perm(n)))
+    return {"A": A.astype(float), "family": "huge-" + fam, "order": draw(st.sampled_from(gen.ORDERS)), "cut": None, "timeout": 40.0,
+            "dtype": draw(st.sampled_from(["float64", "uint8", "int64", "float64"]))}
+
+
 _SPACES = {}
 
 
@@ -262,4 +307,5 @@ def units(tier):
         Unit("random-n<=14", check, strategy=lambda: cases(14), examples=(5000, 75000), shards=(8, 16)),
         Unit("random-n<=40", check, strategy=lambda: cases(40), examples=(1200, 24000), shards=(8, 16)),
         Unit("random-n<=65", check, strategy=lambda: cases(65), examples=(64, 1200), shards=(16, 16)),
+        Unit("huge-structured", check, strategy=huge_cases, examples=(24, 96), shards=(12, 16)),
     ]
